@@ -33,10 +33,14 @@ pub struct Clock {
 
 impl Clock {
     pub fn start() -> Clock {
-        Clock { epoch: tokio::time::Instant::now() }
+        Clock {
+            epoch: tokio::time::Instant::now(),
+        }
     }
     pub fn now_ms(&self) -> u64 {
-        tokio::time::Instant::now().saturating_duration_since(self.epoch).as_millis() as u64
+        tokio::time::Instant::now()
+            .saturating_duration_since(self.epoch)
+            .as_millis() as u64
     }
 }
 
@@ -72,11 +76,27 @@ pub async fn advance(ms: u64) {
 #[derive(Clone, Debug, PartialEq)]
 pub enum Rx {
     /// a complete application fragment (reassembled from transport segments)
-    Fragment { ord: u64, t_ms: u64, src: u16, dest: u16, bytes: Vec<u8>, segments: usize },
+    Fragment {
+        ord: u64,
+        t_ms: u64,
+        src: u16,
+        dest: u16,
+        bytes: Vec<u8>,
+        segments: usize,
+    },
     /// a link-layer only frame (ACK, LINK_STATUS, REQUEST_LINK_STATUS, ...)
-    Link { ord: u64, t_ms: u64, frame: rl::Frame },
+    Link {
+        ord: u64,
+        t_ms: u64,
+        frame: rl::Frame,
+    },
     /// bytes that are not a well-formed frame / segment sequence
-    Garbage { ord: u64, t_ms: u64, why: String, bytes: Vec<u8> },
+    Garbage {
+        ord: u64,
+        t_ms: u64,
+        why: String,
+        bytes: Vec<u8>,
+    },
 }
 
 impl Rx {
@@ -109,7 +129,12 @@ pub struct WireDecoder {
 
 impl WireDecoder {
     pub fn new() -> Self {
-        WireDecoder { partial: vec![], partial_meta: None, expect_seq: None, seq_violations: 0 }
+        WireDecoder {
+            partial: vec![],
+            partial_meta: None,
+            expect_seq: None,
+            seq_violations: 0,
+        }
     }
     pub fn reset(&mut self) {
         self.partial.clear();
@@ -122,7 +147,12 @@ impl WireDecoder {
             let func = f.ctrl & 0x4F;
             if func == rl::F_UNCONFIRMED_DATA || func == rl::F_CONFIRMED_DATA {
                 if f.payload.is_empty() {
-                    out.push(Rx::Garbage { ord, t_ms, why: "data frame without transport octet".into(), bytes: f.encode() });
+                    out.push(Rx::Garbage {
+                        ord,
+                        t_ms,
+                        why: "data frame without transport octet".into(),
+                        bytes: f.encode(),
+                    });
                     continue;
                 }
                 let h = f.payload[0];
@@ -130,46 +160,93 @@ impl WireDecoder {
                 if let Some(e) = self.expect_seq {
                     if e != seq {
                         self.seq_violations += 1;
-                        out.push(Rx::Garbage { ord, t_ms, why: format!("transport sequence {seq}, expected {e}"), bytes: f.encode() });
+                        out.push(Rx::Garbage {
+                            ord,
+                            t_ms,
+                            why: format!("transport sequence {seq}, expected {e}"),
+                            bytes: f.encode(),
+                        });
                     }
                 }
                 self.expect_seq = Some((seq + 1) & 0x3F);
                 if fir {
                     if self.partial_meta.is_some() {
-                        out.push(Rx::Garbage { ord, t_ms, why: "FIR while a fragment was in progress".into(), bytes: f.encode() });
+                        out.push(Rx::Garbage {
+                            ord,
+                            t_ms,
+                            why: "FIR while a fragment was in progress".into(),
+                            bytes: f.encode(),
+                        });
                     }
                     self.partial.clear();
                     self.partial_meta = Some((f.src, f.dest, seq, 0, t_ms, ord));
                 } else if self.partial_meta.is_none() {
-                    out.push(Rx::Garbage { ord, t_ms, why: "non-FIR segment without a start".into(), bytes: f.encode() });
+                    out.push(Rx::Garbage {
+                        ord,
+                        t_ms,
+                        why: "non-FIR segment without a start".into(),
+                        bytes: f.encode(),
+                    });
                     continue;
                 }
                 let meta = self.partial_meta.as_mut().unwrap();
                 if meta.0 != f.src || meta.1 != f.dest {
-                    out.push(Rx::Garbage { ord, t_ms, why: "segment addresses changed within a fragment".into(), bytes: f.encode() });
+                    out.push(Rx::Garbage {
+                        ord,
+                        t_ms,
+                        why: "segment addresses changed within a fragment".into(),
+                        bytes: f.encode(),
+                    });
                 }
                 if !fin && f.payload.len() != 250 {
-                    out.push(Rx::Garbage { ord, t_ms, why: format!("non-final segment with {} bytes", f.payload.len() - 1), bytes: f.encode() });
+                    out.push(Rx::Garbage {
+                        ord,
+                        t_ms,
+                        why: format!("non-final segment with {} bytes", f.payload.len() - 1),
+                        bytes: f.encode(),
+                    });
                 }
                 meta.3 += 1;
                 self.partial.extend_from_slice(&f.payload[1..]);
                 if fin {
                     let (src, dest, _, segments, t0, ord0) = self.partial_meta.take().unwrap();
-                    out.push(Rx::Fragment { ord: ord0, t_ms: t0, src, dest, bytes: std::mem::take(&mut self.partial), segments });
+                    out.push(Rx::Fragment {
+                        ord: ord0,
+                        t_ms: t0,
+                        src,
+                        dest,
+                        bytes: std::mem::take(&mut self.partial),
+                        segments,
+                    });
                 }
             } else {
-                out.push(Rx::Link { ord, t_ms, frame: f.clone() });
+                out.push(Rx::Link {
+                    ord,
+                    t_ms,
+                    frame: f.clone(),
+                });
             }
         }
         if scan.error.is_some() || scan.stop != bytes.len() {
-            out.push(Rx::Garbage { ord, t_ms, why: format!("write is not whole valid frames (error {:?})", scan.error), bytes: bytes[scan.stop..].to_vec() });
+            out.push(Rx::Garbage {
+                ord,
+                t_ms,
+                why: format!("write is not whole valid frames (error {:?})", scan.error),
+                bytes: bytes[scan.stop..].to_vec(),
+            });
         }
     }
 }
 
 /// Segment + frame an application fragment the way a correct peer would.
 /// `from_master`: DIR bit of the sender.
-pub fn encode_fragment(from_master: bool, dest: u16, src: u16, fragment: &[u8], tseq: &mut u8) -> Vec<u8> {
+pub fn encode_fragment(
+    from_master: bool,
+    dest: u16,
+    src: u16,
+    fragment: &[u8],
+    tseq: &mut u8,
+) -> Vec<u8> {
     let mut out = vec![];
     let segs = rt::segment(fragment, *tseq);
     for s in &segs {
